@@ -448,7 +448,7 @@ def sym_unpivot_pkg(vc):
                                 check(it, 'config-registered' + tag, False)
                                 return
                             c = ent[0]
-                            got = c.d.get('unpivot_fields_without_regex')
+                            got = c.d['unpivot_fields_without_regex']      # internal name: KeyError = contract-mapping error = undecided
                             ok = got is not None and len(got.items) == len(sel.items) and \
                                 all(g is w[0] for g, w in zip(got.items, sel.items))
                             check(it, 'unpivoted-fields-in-selection-order-each-once' + tag, ok)
@@ -459,7 +459,7 @@ def sym_unpivot_pkg(vc):
                                     same = isinstance(kv, PyDict) and set(kv.d) == set(wk.d) and True
                                     check(it, 'derived-key-values' + tag, z3.And(*[term(kv.d[k], StrS) == term(wk.d[k], StrS)
                                                                                   for k in wk.d]) if same else False)
-                            keep = c.d.get('fields_to_keep')
+                            keep = c.d['fields_to_keep']
                             okk = keep is not None and len(keep.items) == len(remaining.items)
                             check(it, 'kept-names-are-the-unclaimed-fields' + tag,
                                   z3.And(*[term(a, StrS) == b.children['name'].t for a, b in zip(keep.items, remaining.items)])
